@@ -47,7 +47,7 @@ def Series(params: SeriesParams) -> h.Module:
     # Copy the unit-cell ports, of all types: Signals and Bundles
     from .instantiable import io
 
-    for p in io(params.unit).values():
+    for p in _unit_io(params.unit).values():
         m.add(deepcopy(p))
 
     # Divy up the ports by series vs parallel connections
@@ -127,13 +127,29 @@ def Wrapper(m: h.Instantiable) -> h.Module:
 
     # Copy the inner-cell ports
     # Note this also serves as the connections-dict to the inner instance
-    wrapper_io = {p.name: wrapper.add(deepcopy(p)) for p in io(m).values()}
+    wrapper_io = {p.name: wrapper.add(deepcopy(p)) for p in _unit_io(m).values()}
 
     # Create the inner instance
     wrapper.add(h.Instance(name="inner", of=m)(**wrapper_io))
 
     # And return the wrapper
     return wrapper
+
+
+def _unit_io(unit: h.Instantiable) -> dict:
+    """
+    The IO ports of `unit` - Signals and Bundles - as a newly created parent Module connects to them.
+    A Module which has already been elaborated has had its Bundle-valued ports flattened in place;
+    Instances in not-yet-elaborated parents connect to its ports as they were before that flattening,
+    the same ones the elaborator resolves port-references and checks connections against.
+    """
+    from copy import copy
+    from .instantiable import io
+
+    pre_flattening_io = getattr(unit, "_pre_flattening_io", None)
+    if pre_flattening_io is not None:
+        return copy(pre_flattening_io)
+    return io(unit)
 
 
 @h.paramclass
